@@ -36,6 +36,14 @@ RULE = ('condition programs = forests of with-predicate / otherwise / |= nodes: 
         'registers -- explicit hold r.next |= r, copy of another register, wire |= register -- all combinations of '
         'rhs kinds {Input, the target itself, another register} over 1-2 (thorough 3) exclusive branches x declared '
         'default {none, Input, itself, other register} x 3 shapes, and 0/25/50 % of the rhs in the random forests; '
+        '(2d) right-hand sides of every kind |= accepts, in every slot (wire, register, memory data / address / '
+        'enable) and at widths 1/3/8: ints 0, 1, 2^w-1, 2^w, 2^w+3, -1, -2^(w-1), -2^(w-1)-1, -2^w, bools, Verilog '
+        'strings of the right / wrong width and negative, Const objects unsigned / signed / narrower / wider, Inputs '
+        'narrower / equal / wider; outcome (value at the target width, or PyrtlError) decided by the small coercion '
+        'spec coerce_ok; 25 % of the non-plain rhs in random forests are drawn from the same menu; '
+        '(2e) caught errors: 150 (thorough 1500) random forests in which most conflicting |= (and a few good ones) '
+        'are wrapped in try/except PyrtlError so that the elaboration of the block continues; specification: a '
+        'rejected statement has no effect, the design is that of the program without it (values, pred_sets seen); '
         '(2b) memory write chains: 2-4 (thorough 5) conditional writes to ONE MemBlock with address wires drawn '
         'from a pool of 3 SHARED address Inputs -- every address-wire pattern up to renaming (XY, XYY, XYX, XXYY, '
         'XYZX ...) x 4 tree shapes (flat chain, chain ending in otherwise, nested otherwise, split), plus 60 '
@@ -58,7 +66,8 @@ IMPORTS = ('From Coq Require Import ZArith List Bool.\n'
            'Import ListNotations. Open Scope Z_scope.')
 COQ_TARGETS = ['theories/Front/CondHarness.vo']
 PROPS_FILES = ['theories/Props/C07.v', 'theories/Props/C07Rules.v']
-TRUSTED = ['Front/CondSpec.v: the tree interpreter (branch_active / next_taken / flags_tree), '
+TRUSTED = ['py/checks/C07.py coerce_ok / leaf_own_value: the coercion rule of |= (which right-hand sides are taken, at what value)',
+           'Front/CondSpec.v: the tree interpreter (branch_active / next_taken / flags_tree), '
            'spec_value / spec_mem, and the syntactic exclusivity criterion (slits / syn_excl / spec_accepts)',
            'py/checks/C07.py py_flags / py_lits: the same specification written independently in Python']
 ASSUMPTIONS = ['predicates are wires of known bitwidth (a `with` on a wire wider than 1 bit raises: elab_w); right-hand sides, addresses, data, enables and declared '
@@ -71,7 +80,9 @@ ASSUMPTIONS = ['predicates are wires of known bitwidth (a `with` on a wire wider
                'exercised here by multi-cycle simulation with state-carrying registers and memories',
                'several conditional blocks in one design are specified block by block (declared defaults belong '
                'to the block that declares them)',
-               'Python with-protocol / exception unwinding is exercised by the malformed stream only',
+               'Python with-protocol / exception unwinding is exercised by the malformed stream only; a PyrtlError '
+               'caught around a single |= inside the block is specified as "the statement has no effect" and the '
+               'remaining program is modelled',
                'translator tie (py/genfrag_C07.py -> Gen/CondRules.v, Props/C07Rules.v): the conflict condition, the '
                'width guard, the select conjuncts / pred_set polarities, the default selection and the select steps '
                'of both _finalize folds are translated from the source; the statement skeleton of the state machine '
@@ -181,7 +192,102 @@ def leaf_src(case, i):
     lf = case['leaves'][i]
     if lf['kind'] == 'reg':
         return wname(lf['reg'])       # the Register object itself: `r0.next |= r0` (hold), `w0 |= r1`, ...
-    return str(lf['val']) if lf['kind'] == 'int' else 'x%d' % i
+    if lf['kind'] in ('int', 'bool'):
+        return repr(lf['val'])
+    if lf['kind'] == 'str':
+        return repr(lf['text'])
+    if lf['kind'] == 'const':
+        return 'pyrtl.Const(%d, bitwidth=%d, signed=%s)' % (lf['val'], lf['bw'], lf['signed'])
+    return 'x%d' % i
+
+
+# ---------------------------------------------------------------- the coercion rule of `|=` (small spec)
+# What `target |= rhs` accepts, from the documentation of as_wires / Const / infer_val_and_bitwidth:
+#   WireVector (Input, Register, Const object ...) of width w:
+#       wire / register target of width W : always; the value is taken at width W (zero-extended or the
+#                                           most significant bits dropped)
+#       memory data / address / enable    : never truncated -> PyrtlError when w > the port width
+#   Python int v   : a constant OF THE TARGET'S WIDTH: 0 <= v < 2^W as is, -2^(W-1) <= v < 0 as two's
+#                    complement at width W, anything else PyrtlError
+#   bool           : a 1-bit constant: only for 1-bit targets (PyrtlError otherwise)
+#   "n'd.." string : a constant of width n: PyrtlError unless n equals the target's width
+def wire_like_width(lf):
+    if lf['kind'] in ('in', 'reg'):
+        return lf['width']
+    if lf['kind'] == 'const':
+        return lf['bw']
+    return None
+
+
+def coerce_ok(lf, width, truncating):
+    k = lf['kind']
+    if k in ('in', 'reg', 'const'):
+        return truncating or wire_like_width(lf) <= width
+    if k == 'int':
+        v = lf['val']
+        return v < (1 << width) if v >= 0 else v >= -(1 << (width - 1))
+    if k == 'bool':
+        return width == 1
+    if k == 'str':
+        return lf['num'] is not None and lf['n'] == width
+    raise ValueError(k)
+
+
+def leaf_own_value(lf):
+    """value of a constant-like leaf at its own width (None for wires whose value is stimulus / state)"""
+    k = lf['kind']
+    if k == 'int':
+        return lf['val']            # masked to the target width by eff (two's complement for negatives)
+    if k == 'bool':
+        return int(lf['val'])
+    if k == 'str':
+        return lf['num'] or 0
+    if k == 'const':
+        return lf['val'] & ((1 << lf['bw']) - 1)
+    return None
+
+
+def asg_coercion_ok(case, t):
+    L = case['leaves']
+    if t[0] == 'asg':
+        return coerce_ok(L[t[2]], case['W'], True)
+    return (coerce_ok(L[t[2]], case['A'], False) and coerce_ok(L[t[3]], case['W'], False)
+            and coerce_ok(L[t[4]], 1, False))
+
+
+def coercions_ok(case):
+    return all(asg_coercion_ok(case, t) for b in case['blocks'] for t in walk(b['prog']) if t[0] in ('asg', 'mem'))
+
+
+def const_menu(width, rng=None):
+    """right-hand sides of every non-wire kind, around the boundaries of `width`"""
+    top = 1 << width
+    half = 1 << (width - 1)
+    ints = [0, 1, top - 1, top, top + 3, -1, -half, -half - 1, -top, top // 2]
+    out = [{'kind': 'int', 'val': v} for v in ints]
+    out += [{'kind': 'bool', 'val': True}, {'kind': 'bool', 'val': False}]
+    for text, n, num in [("%d'd1" % width, width, 1), ("%d'b%s" % (width, '1' * width), width, top - 1),
+                         ("%d'd1" % (width + 1), width + 1, 1), ("%d'h0" % width, width, 0)] + (
+                             # (the most negative value of a width as a string, e.g. "-1'd1", is C16's business)
+                             [("%d'd1" % (width - 1), width - 1, 1), ("-%d'd1" % width, width, top - 1)] if width > 1 else []):
+        out.append({'kind': 'str', 'text': text, 'n': n, 'num': num})
+    out += [{'kind': 'const', 'val': top - 1, 'bw': width, 'signed': False},
+            {'kind': 'const', 'val': 1, 'bw': 1, 'signed': False},
+            {'kind': 'const', 'val': top + 1, 'bw': width + 2, 'signed': False}]
+    if width > 1:
+        out += [{'kind': 'const', 'val': -1, 'bw': width, 'signed': True},
+                {'kind': 'const', 'val': -half, 'bw': width, 'signed': True},
+                {'kind': 'const', 'val': half - 1, 'bw': width, 'signed': True}]
+    return out
+
+
+def add_kind_leaf(case, role, spec):
+    width = case['W'] if role == 'data' else case['A'] if role == 'addr' else 1
+    lf = dict(spec, role=role)
+    lf.setdefault('width', width)
+    case['leaves'].append(lf)
+    case['structural'] = False
+    return len(case['leaves']) - 1
 
 
 def add_reg_leaf(case, reg):
@@ -212,14 +318,111 @@ def emit_body(case, forest, ind, lines):
         elif t[0] == 'oth':
             lines.append(pad + 'with pyrtl.otherwise:')
             emit_body(case, t[1], ind + 1, lines)
-        elif t[0] == 'asg':
-            if t[1][0] == 'w':
-                lines.append(pad + '%s |= %s' % (wname(t[1]), leaf_src(case, t[2])))
-            else:
-                lines.append(pad + '%s.next |= %s' % (wname(t[1]), leaf_src(case, t[2])))
         else:
-            lines.append(pad + 'm%d[%s] |= pyrtl.MemBlock.EnabledWrite(%s, enable=%s)' % (
-                t[1], leaf_src(case, t[2]), leaf_src(case, t[3]), leaf_src(case, t[4])))
+            if is_try(t):     # the statement's PyrtlError (if any) is caught; elaboration of the block goes on
+                lines.append(pad + 'try:')
+                pad2 = pad + '    '
+            else:
+                pad2 = pad
+            if t[0] == 'asg':
+                if t[1][0] == 'w':
+                    lines.append(pad2 + '%s |= %s' % (wname(t[1]), leaf_src(case, t[2])))
+                else:
+                    lines.append(pad2 + '%s.next |= %s' % (wname(t[1]), leaf_src(case, t[2])))
+            else:
+                lines.append(pad2 + 'm%d[%s] |= pyrtl.MemBlock.EnabledWrite(%s, enable=%s)' % (
+                    t[1], leaf_src(case, t[2]), leaf_src(case, t[3]), leaf_src(case, t[4])))
+            if is_try(t):
+                lines.append(pad + 'except pyrtl.PyrtlError:')
+                lines.append(pad + '    pass')
+
+
+def is_try(t):
+    return t[0] in ('asg', 'mem') and t[-1] == 'try'
+
+
+def has_try(case):
+    return any(is_try(t) for b in case['blocks'] for t in walk(b['prog']))
+
+
+def scan_block(case, forest):
+    """Program-order account of what every |= does.  Returns (dropped, log, fatal):
+    dropped = ids of caught (try-wrapped) statements that raise -- by the specification a rejected
+    statement has NO effect on the design that remains; log = [(lhs name, pred_set)] of the statements that
+    reach the conflict check; fatal = an uncaught statement raises (the whole program is rejected)."""
+    pw = pw_of(case)
+    ls = {id(node): (l, c) for l, c, node in py_lits(forest)}
+    accepted = []
+    dropped = set()
+    log = []
+    for t in walk(forest):
+        if t[0] == 'with' and pw[t[1]] > 1:
+            return dropped, log, True
+        if t[0] not in ('asg', 'mem'):
+            continue
+        l, c = ls[id(t)]
+        bad = (not asg_coercion_ok(case, t)) or len(c) == 0
+        if not bad:
+            log.append((wname(l), sorted(set(('p%d' % q, bool(n)) for q, n in c))))
+            bad = any(l == l2 and not py_excl(c, c2) for l2, c2 in accepted)
+        if bad:
+            if not is_try(t):
+                return dropped, log, True
+            dropped.add(id(t))
+        else:
+            accepted.append((l, c))
+    return dropped, log, False
+
+
+def effective_case(case):
+    """the program that remains when every caught, rejected statement is deleted (try markers removed)"""
+    if not has_try(case):
+        return case
+
+    def strip(f, dropped):
+        out = []
+        for t in f:
+            if t[0] == 'with':
+                out.append(('with', t[1], strip(t[2], dropped)))
+            elif t[0] == 'oth':
+                out.append(('oth', strip(t[1], dropped)))
+            elif id(t) not in dropped:
+                out.append(t[:-1] if is_try(t) else t)
+        return out
+    new = dict(case)
+    new['blocks'] = []
+    for b in case['blocks']:
+        dropped, _, fatal = scan_block(case, b['prog'])
+        new['blocks'].append(dict(b, prog=strip(b['prog'], set() if fatal else dropped)))
+    return new
+
+
+def add_try_markers(rng, case):
+    """wrap statements in try/except PyrtlError: most of those that raise for a conflict, a few that succeed"""
+    def mark(f, status):
+        out = []
+        for t in f:
+            if t[0] == 'with':
+                out.append(('with', t[1], mark(t[2], status)))
+            elif t[0] == 'oth':
+                out.append(('oth', mark(t[1], status)))
+            else:
+                out.append(t + ('try',) if status.get(id(t)) else t)
+        return out
+    for b in case['blocks']:
+        ls = py_lits(b['prog'])
+        accepted = []
+        status = {}
+        for l, c, node in ls:
+            conflict = len(c) > 0 and any(l == l2 and not py_excl(c, c2) for l2, c2 in accepted)
+            if conflict:
+                status[id(node)] = rng.random() < 0.85
+            else:
+                if len(c) > 0 and asg_coercion_ok(case, node):
+                    accepted.append((l, c))
+                status[id(node)] = rng.random() < 0.1
+        b['prog'] = mark(b['prog'], status)
+    return case
 
 
 def emit_source(case):
@@ -310,8 +513,10 @@ def add_leaf(case, role, rng=None, exact=True, reuse=0.0):
             lf = {'role': 'data', 'kind': 'in', 'width': W}
         else:
             r = rng.random()
-            if r < 0.4:
+            if r < 0.2:
                 lf = {'role': 'data', 'kind': 'int', 'width': W, 'val': rng.randrange(1 << W)}
+            elif r < 0.45:
+                lf = dict(rng.choice(const_menu(W)), role='data', width=W)     # any kind, ok or PyrtlError
             elif r < 0.7 and W > 1:
                 lf = {'role': 'data', 'kind': 'in', 'width': rng.randint(1, W - 1)}
             else:
@@ -438,6 +643,51 @@ def state_rhs_case(kinds, dkind, shape, tkind='r'):
     return case
 
 
+def rhs_kind_case(slot, spec, W, A=2):
+    """`with p0: T |= RHS` / `with p1: T |= plain Input`, RHS of the given kind in the given slot:
+    slot 'w' / 'r' (wire / register target), 'mdata' / 'maddr' / 'men' (the three operands of a
+    conditional memory write)."""
+    tgt = {'w': ('w', 0), 'r': ('r', 0)}.get(slot, ('m', 0))
+    case = fresh_case(2, W, A, [tgt])
+
+    def leaf(role, special):
+        if special:
+            if spec['kind'] == 'in':
+                case['leaves'].append({'role': role, 'kind': 'in', 'width': spec['width']})
+                case['structural'] = False
+                return len(case['leaves']) - 1
+            return add_kind_leaf(case, role, spec)
+        return add_leaf(case, role)
+    if tgt[0] == 'm':
+        a0 = ('mem', 0, leaf('addr', slot == 'maddr'), leaf('data', slot == 'mdata'), leaf('en', slot == 'men'))
+        a1 = ('mem', 0, add_leaf(case, 'addr'), add_leaf(case, 'data'), add_leaf(case, 'en'))
+    else:
+        a0 = ('asg', tgt, leaf('data', True))
+        a1 = ('asg', tgt, add_leaf(case, 'data'))
+    case['blocks'] = [{'defaults': None, 'prog': [('with', 0, [a0]), ('with', 1, [a1])]}]
+    case['origin'] = 'rhs-kinds'
+    return case
+
+
+def rhs_kind_cases(quick):
+    for slot in ('w', 'r', 'mdata', 'maddr', 'men'):
+        widths = [1, 3, 8] if slot in ('w', 'r') else [3] if slot == 'mdata' else [2] if slot == 'maddr' else [1]
+        for width in widths:
+            menu = const_menu(width)
+            menu += [{'kind': 'in', 'width': width}, {'kind': 'in', 'width': width + 2}]
+            if width > 1:
+                menu.append({'kind': 'in', 'width': width - 1})
+            for spec in menu:
+                if slot == 'mdata':
+                    yield rhs_kind_case(slot, spec, width)
+                elif slot == 'maddr':
+                    yield rhs_kind_case(slot, spec, 3, A=width)
+                elif slot == 'men':
+                    yield rhs_kind_case(slot, spec, 3)
+                else:
+                    yield rhs_kind_case(slot, spec, width)
+
+
 def random_forest(rng, case, depth, maxdepth, cfg):
     """random body: branches and assignments at random positions"""
     items = []
@@ -491,7 +741,7 @@ def repair(forest):
     return rebuild(forest)
 
 
-def random_case(rng, tier, wide=False):
+def random_case(rng, tier, wide=False, norepair=False):
     npred = rng.randint(3, 5)
     W = rng.choice([1, 2, 3, 3, 4, 8])
     A = rng.choice([1, 2, 3])
@@ -504,7 +754,7 @@ def random_case(rng, tier, wide=False):
            'p_regrhs': rng.choice([0.0, 0.25, 0.5])}
     maxdepth = rng.randint(2, 4 if tier == 'quick' else 5)
     prog = random_forest(rng, case, 0, maxdepth, cfg)
-    if rng.random() < 0.6:
+    if rng.random() < 0.6 and not norepair:
         prog = repair(prog)
     asg = assigned_targets(prog)
     d = None
@@ -707,9 +957,14 @@ def asgs_before_wide(forest, pwidths):
     return None
 
 
-def expected_log_len(forest, pwidths=None):
+def expected_log_len(forest, pwidths=None, case=None):
     """how many |= reach _check_and_add_pred_set before the elaboration stops"""
     k = expected_log_len1(forest)
+    if case is not None:
+        for i, (_, _, node) in enumerate(py_lits(forest)):
+            if not asg_coercion_ok(case, node):
+                k = min(k, i)        # the |= itself raises, _build is not reached
+                break
     w = asgs_before_wide(forest, pwidths) if pwidths else None
     return k if w is None else min(k, w)
 
@@ -759,8 +1014,8 @@ def make_stimulus(rng, case, rounds=2, cap=None):
         k = 0
         ka = 0
         for lf in case['leaves']:
-            if lf['kind'] == 'int':
-                raw.append(lf['val'])
+            if leaf_own_value(lf) is not None:
+                raw.append(leaf_own_value(lf))
             elif lf['kind'] == 'reg':
                 raw.append(0)      # not an input: its value is the register's state (see eff)
             elif lf['role'] == 'data' and lf['width'] == W:
@@ -771,7 +1026,7 @@ def make_stimulus(rng, case, rounds=2, cap=None):
             elif lf['role'] == 'addr':
                 # distinct address wires point at distinct cells (where addrwidth allows): a write through
                 # the wrong address wire lands in a visibly wrong cell
-                raw.append(aperm[ka % len(aperm)])
+                raw.append(aperm[ka % len(aperm)] & ((1 << lf['width']) - 1))
                 ka += 1
             else:
                 raw.append(rng.randrange(1 << lf['width']))
@@ -785,8 +1040,8 @@ def make_stimulus(rng, case, rounds=2, cap=None):
 def eff(case, raw, regvals=None):
     """leaf values as seen by a target of width W (the |= conversion); a leaf that is a register of the
     design has that register's CURRENT value (regvals: {('r', i): value})"""
-    mask = (1 << case['W']) - 1
-    out = [v & mask if lf['role'] == 'data' else v for v, lf in zip(raw, case['leaves'])]
+    wd = {'data': case['W'], 'addr': case['A'], 'en': 1}
+    out = [v & ((1 << wd[lf['role']]) - 1) for v, lf in zip(raw, case['leaves'])]
     if regvals is not None:
         for i, lf in enumerate(case['leaves']):
             if lf['kind'] == 'reg':
@@ -941,9 +1196,12 @@ def impl_vs_spec(case, seed):
     interpreter.  Returns None (agrees) or a dict describing the first disagreement."""
     import random
     src = emit_source(case)
+    case = effective_case(case)
     try:
         ok, ns, msg = build_real(case, src)
         accept = [py_accepts(b['prog'], pw_of(case)) for b in case['blocks']]
+        if not coercions_ok(case):
+            accept.append((False, 'rhs-coercion'))
         spec_ok = all(a for a, _ in accept)
         why = next((w for a, w in accept if not a), 'ok')
         if not ok and ns != 'PyrtlError':
@@ -1069,7 +1327,7 @@ def report_shrunk(ctx, case, seed_key, fallback_sig, fallback_what, fallback_rep
                 m2['cycle'], m2['target'], m2['expected'], m2['got'])
         elif m2['kind'] == 'accept':
             sig = fallback_sig
-            what = 'program is %s by PyRTL but the syntactic exclusivity criterion says %s' % (m2['impl'], m2['spec'])
+            what = 'program is %s by PyRTL but the specification (1-bit predicates, guarded + syntactically exclusive assignments, coercible right-hand sides) says %s' % (m2['impl'], m2['spec'])
         else:
             sig, what = fallback_sig, fallback_what
         ctx.spec_violation(sig, what + ' (shrunk)', dict(m2, seed=seed, shrunk_from=fallback_rep.get('source')))
@@ -1082,13 +1340,17 @@ def process_case(ctx, case, rng, jobs, seed_key=None):
     src = emit_source(case)
     plog = []
     ok, ns, msg = build_real(case, src, plog)
+    orig = case
+    case = effective_case(orig)      # caught, rejected statements must have no effect
     accept = []
     for blk in case['blocks']:
         accept.append(py_accepts(blk['prog'], pw_of(case)))
+    if not coercions_ok(case):
+        accept.append((False, 'rhs-coercion'))
     spec_ok = all(a for a, _ in accept)
     why = next((w for a, w in accept if not a), 'ok')
     rep = {'source': src, 'case': {k: case[k] for k in ('npred', 'W', 'A', 'origin')}}
-    job = {'case': case, 'src': src, 'ok': ok, 'spec_ok': spec_ok, 'why': why, 'rep': rep, 'plog': plog}
+    job = {'case': case, 'orig': orig, 'src': src, 'ok': ok, 'spec_ok': spec_ok, 'why': why, 'rep': rep, 'plog': plog}
     if not ok and ns != 'PyrtlError':
         ctx.spec_violation('foreign-exception:%s' % ns,
                            'program raised %s instead of PyrtlError / success' % ns, dict(rep, error=msg))
@@ -1101,8 +1363,8 @@ def process_case(ctx, case, rng, jobs, seed_key=None):
                                'conditional module state not reset after PyrtlError', dict(rep, state=repr(module_state())))
     if ok != spec_ok:
         pyrtl.reset_working_block()
-        report_shrunk(ctx, case, seed_key, 'accept-mismatch:%s:%s' % ('accepted' if ok else 'rejected', why),
-                      'program is %s by PyRTL but the syntactic exclusivity criterion says %s' % (
+        report_shrunk(ctx, orig, seed_key, 'accept-mismatch:%s:%s' % ('accepted' if ok else 'rejected', why),
+                      'program is %s by PyRTL but the specification (1-bit predicates, guarded + exclusive assignments, coercible right-hand sides) says %s' % (
                           'accepted' if ok else 'rejected (%s)' % msg, why), rep)
         ok2, ns, msg = build_real(case, src)   # rebuild: the shrinker reset the working block
     if ok and case.get('shared_defaults'):
@@ -1173,7 +1435,7 @@ def process_case(ctx, case, rng, jobs, seed_key=None):
     pyrtl.reset_working_block()
     if 'pending_report' in job:
         if len(ctx.spec_fail) < 3:
-            report_shrunk(ctx, case, seed_key, *job['pending_report'])
+            report_shrunk(ctx, orig, seed_key, *job['pending_report'])
         else:
             ctx.spec_violation(*job['pending_report'])
 
@@ -1242,10 +1504,18 @@ def check_job(ctx, job, results):
     nontrivial = not job['ok'] and job['why'] == 'conflict'
     for blk, res in zip(case['blocks'], results):
         model, spec, struct, clits = res
-        if len(case['blocks']) == 1:
+        if len(case['blocks']) == 1 and has_try(job['orig']):
+            _, elog, _ = scan_block(job['orig'], job['orig']['blocks'][0]['prog'])
+            got = [(n, [tuple(x) for x in ls]) for n, ls in job['plog']]
+            okp = got == elog
+            ctx.count('pred_set_tie', 'identical(caught-error program)' if okp else 'DIFFERENT')
+            if not okp:
+                ctx.model_mismatch('pred_sets seen by _check_and_add_pred_set differ from the program-order account',
+                                   dict(rep, impl=got, expected=elog))
+        elif len(case['blocks']) == 1:
             want = [('%s%d' % ('wrm'[c[0]], c[1]), sorted(('p%d' % p, bool(b)) for p, b in ls))
                     for c, ls in clits]
-            want = want[:expected_log_len(blk['prog'], pw_of(case))]
+            want = want[:expected_log_len(blk['prog'], pw_of(case), case)]
             got = [(n, [tuple(x) for x in ls]) for n, ls in job['plog']]
             okp = got == [(n, [tuple(x) for x in sorted(set(ls))]) for n, ls in want]
             ctx.count('pred_set_tie', 'identical' if okp else 'DIFFERENT')
@@ -1326,7 +1596,8 @@ def check_job(ctx, job, results):
                                             impl={wname(l): v for l, v in job['struct'].items()}))
         else:
             ctx.count('structural_tie', 'not-applicable(mixed widths/ints/multiblock)')
-    if job['ok'] == any_model_none:
+    # the tree model is about WHICH branch; whether each rhs is coercible is decided by coerce_ok
+    if job['ok'] != ((not any_model_none) and coercions_ok(case)):
         ctx.model_mismatch('PyRTL %s the program but elab returns %s' % (
             'accepts' if job['ok'] else 'rejects (%s)' % job.get('error', ''), 'None' if any_model_none else 'Some'), rep)
     if job['ok']:
@@ -1431,6 +1702,24 @@ def gen_cases(ctx):
                 for dkind in [None] + rk:
                     for shape in (('flat',) if n == 1 else ('flat', 'flat-oth', 'nested')):
                         yield state_rhs_case(kinds, dkind, shape, tkind)
+    # (2d) every KIND of right-hand side the |= entry points take (ints at the boundaries of the width incl.
+    # negatives, bools, Verilog strings, Const objects signed/unsigned, narrower/equal/wider wires) in every
+    # slot (wire, register, memory data / address / enable): accepted with the value at the target's
+    # width, or PyrtlError, as the coercion spec (coerce_ok) says
+    for c in rhs_kind_cases(quick):
+        yield c
+    # (2e) a rejected |= whose PyrtlError is caught (try/except around the statement) while the elaboration
+    # of the same block goes on: the rejected statement must leave nothing behind -- the design that remains
+    # is the program without it
+    for i in range(150 if quick else 1500):
+        trng = ctx.sub_rng('caught', i)
+        c = random_case(trng, ctx.tier, norepair=True)
+        if max(pw_of(c)) > 1:
+            continue
+        c = add_try_markers(trng, c)
+        c['origin'] = 'random-caught-error'
+        c['structural'] = c['structural'] and True
+        yield c
     # (2b) memory write chains: 2..4 (thorough 5) conditional writes to one MemBlock, ALL patterns of
     # address wires over a pool of 3 shared address Inputs (X,Y / X,Y,Y / X,Y,X / X,X,Y,Y ...), 4 shapes
     nmem = 4 if quick else 5
@@ -1468,6 +1757,18 @@ def run(ctx):
         n += 1
     for k in range(len(POISON)):
         run_poison(ctx, k)
+    # the Coq statement of the integer coercion rule agrees with the Python twin used by the search
+    pts = [(w, v) for w in (1, 2, 3, 8) for v in sorted({0, 1, (1 << w) - 1, 1 << w, (1 << w) + 3, -1, -(1 << (w - 1)),
+                                                         -(1 << (w - 1)) - 1, -(1 << w), 1 << (w - 1)})]
+    try:
+        cres = ctx.coq_eval(['coerce_int %d (%d)' % p for p in pts], IMPORTS, tag='c07coerce', shard=100, jobs=2)
+        for (w, v), r in zip(pts, cres):
+            lf = {'kind': 'int', 'val': v}
+            want = (v & ((1 << w) - 1)) if coerce_ok(lf, w, True) else None
+            if r != want:
+                ctx.model_mismatch('Coq coerce_int %d %d = %r but the Python coercion spec says %r' % (w, v, r, want), {})
+    except Exception as e:  # noqa
+        ctx.model_mismatch('coerce_int could not be evaluated: %s' % str(e)[-300:], {})
     exprs = [e for j in jobs for e in j['exprs']]
     try:
         results = ctx.coq_eval(exprs, IMPORTS, tag='c07', shard=150 if ctx.tier == 'quick' else 300, jobs=12)
